@@ -58,6 +58,25 @@ fn process_slice<'a, T: Queryable>(
     end: &Option<i64>,
     step: &Option<i64>,
 ) -> Data<'a, T> {
+    #[cfg(jsonpath_rust_verif)]
+    if crate::verif::active() && !crate::verif::reenter(crate::verif::SLICE) {
+        crate::verif::set_reenter(crate::verif::SLICE);
+        crate::verif::reset_ticks();
+        let arr = inner.as_array();
+        let out = process_slice(Pointer::new(inner, path), start, end, step);
+        let emitted: Vec<usize> = match (&out, arr) {
+            (Data::Refs(ps), Some(a)) => ps
+                .iter()
+                .map(|p| {
+                    (p.inner as *const T as usize - a.as_ptr() as usize) / std::mem::size_of::<T>()
+                })
+                .collect(),
+            _ => vec![],
+        };
+        crate::verif::emit(serde_json::json!({"ev": "slice", "len": arr.map(|a| a.len()),
+            "start": start, "end": end, "step": step, "emitted": emitted, "iters": crate::verif::ticks()}));
+        return out;
+    }
     let extract_elems = |elements: &'a Vec<T>| -> Vec<(&'a T, usize)> {
         let len = elements.len() as i64;
         let norm = |i: i64| {
@@ -78,6 +97,8 @@ fn process_slice<'a, T: Queryable>(
                 let mut idx = lower;
                 let mut res = vec![];
                 while idx < upper {
+                    #[cfg(jsonpath_rust_verif)]
+                    crate::verif::tick();
                     let i = idx as usize;
                     if let Some(elem) = elements.get(i) {
                         res.push((elem, i));
@@ -94,6 +115,8 @@ fn process_slice<'a, T: Queryable>(
                 let mut idx = upper;
                 let mut res = vec![];
                 while lower < idx {
+                    #[cfg(jsonpath_rust_verif)]
+                    crate::verif::tick();
                     let i = idx as usize;
                     if let Some(elem) = elements.get(i) {
                         res.push((elem, i));
